@@ -19,10 +19,11 @@ type Env struct {
 	vars map[string]Val
 	fr   *FnRun
 	pkg  string // package whose constants are in scope
+	args map[string]Val // set while a CALLEE's contract is applied: its parameters at the call
 }
 
 func (e *Env) with(name string, v Val) *Env {
-	n := &Env{st: e.st, old: e.old, fr: e.fr, pkg: e.pkg, vars: map[string]Val{}}
+	n := &Env{st: e.st, old: e.old, fr: e.fr, pkg: e.pkg, args: e.args, vars: map[string]Val{}}
 	for k, x := range e.vars {
 		n.vars[k] = x
 	}
@@ -31,7 +32,7 @@ func (e *Env) with(name string, v Val) *Env {
 }
 
 func (e *Env) inOld() *Env {
-	return &Env{st: e.old, old: e.old, vars: e.vars, fr: e.fr, pkg: e.pkg}
+	return &Env{st: e.old, old: e.old, vars: e.vars, fr: e.fr, pkg: e.pkg, args: e.args}
 }
 
 func (ex *Exec) declareSpecFuncs() error {
@@ -512,7 +513,7 @@ func (fr *FnRun) evalCall(e *Expr, env *Env) Val {
 		case *MapV:
 			return fr.mapLen(env.st, v)
 		}
-		panic(abortf("contract: len of %T", arg(0)))
+		panic(abortf("contract: len of %T (%s)", arg(0), e.Args[0]))
 	case "has":
 		// has(m, k): the map m holds key k
 		need(2)
@@ -600,6 +601,13 @@ func (fr *FnRun) evalCall(e *Expr, env *Env) Val {
 		// entry(p): the value parameter p had when the function was entered (parameters are mutable in Go)
 		if len(e.Args) != 1 || e.Args[0].Kind != "ident" {
 			panic(abortf("contract: entry(parameter)"))
+		}
+		if env.args != nil {
+			// a callee's contract applied at a call site: its parameters are the call's arguments
+			if v, ok := env.args[e.Args[0].Name]; ok {
+				return ex.force(env.old, v)
+			}
+			panic(abortf("contract: entry(%s): no such parameter of the callee", e.Args[0].Name))
 		}
 		if fr.env0 != nil {
 			if v, ok := fr.env0[e.Args[0].Name]; ok {
